@@ -525,6 +525,158 @@ Proof.
   rewrite !sub_eval_c by exact Hsu. rewrite !blc_f_eq, !blc_diag. reflexivity.
 Qed.
 
+(** ** Collinear cubic pieces: the subdivision certificate *)
+Lemma Qmin_spec a b : (Qmin a b = a /\ a <= b) \/ (Qmin a b = b /\ b <= a).
+Proof.
+  unfold Qmin. change Qle_bool with Qleb. destruct (Qleb a b) eqn:E.
+  - left. apply Qleb_le in E. tauto.
+  - right. apply Qleb_false in E. split; [reflexivity|lra].
+Qed.
+
+(** some Bernstein coefficient is below (above) the value *)
+Lemma bc_some_coef_le g0 g1 g2 g3 t : 0 <= t -> t <= 1 ->
+  exists g, In g [g0; g1; g2; g3] /\ g <= bc g0 g1 g2 g3 t.
+Proof.
+  intros T0 T1. set (m := Qmin g0 (Qmin g1 (Qmin g2 g3))).
+  assert (M: In m [g0; g1; g2; g3] /\ m <= g0 /\ m <= g1 /\ m <= g2 /\ m <= g3).
+  { unfold m. destruct (Qmin_spec g2 g3) as [[E1 L1]|[E1 L1]]; rewrite E1;
+    (destruct (Qmin_spec g1 g2) as [[E2 L2]|[E2 L2]]); (destruct (Qmin_spec g1 g3) as [[E3 L3]|[E3 L3]]);
+    try rewrite E2; try rewrite E3;
+    (destruct (Qmin_spec g0 g1) as [[E4 L4]|[E4 L4]]); (destruct (Qmin_spec g0 g2) as [[E5 L5]|[E5 L5]]);
+    (destruct (Qmin_spec g0 g3) as [[E6 L6]|[E6 L6]]);
+    try rewrite E4; try rewrite E5; try rewrite E6; cbn [In]; (split; [tauto|]); repeat split; lra. }
+  destruct M as [I [M0 [M1 [M2 M3]]]]. exists m. split; [exact I|]. apply bc_hull_lo; assumption.
+Qed.
+
+Lemma Qmax_spec a b : (Qmax a b = b /\ a <= b) \/ (Qmax a b = a /\ b <= a).
+Proof.
+  unfold Qmax. change Qle_bool with Qleb. destruct (Qleb a b) eqn:E.
+  - left. apply Qleb_le in E. tauto.
+  - right. apply Qleb_false in E. split; [reflexivity|lra].
+Qed.
+
+Lemma bc_some_coef_ge g0 g1 g2 g3 t : 0 <= t -> t <= 1 ->
+  exists g, In g [g0; g1; g2; g3] /\ bc g0 g1 g2 g3 t <= g.
+Proof.
+  intros T0 T1. set (m := Qmax g0 (Qmax g1 (Qmax g2 g3))).
+  assert (M: In m [g0; g1; g2; g3] /\ g0 <= m /\ g1 <= m /\ g2 <= m /\ g3 <= m).
+  { unfold m. destruct (Qmax_spec g2 g3) as [[E1 L1]|[E1 L1]]; rewrite E1;
+    (destruct (Qmax_spec g1 g2) as [[E2 L2]|[E2 L2]]); (destruct (Qmax_spec g1 g3) as [[E3 L3]|[E3 L3]]);
+    try rewrite E2; try rewrite E3;
+    (destruct (Qmax_spec g0 g1) as [[E4 L4]|[E4 L4]]); (destruct (Qmax_spec g0 g2) as [[E5 L5]|[E5 L5]]);
+    (destruct (Qmax_spec g0 g3) as [[E6 L6]|[E6 L6]]);
+    try rewrite E4; try rewrite E5; try rewrite E6; cbn [In]; (split; [tauto|]); repeat split; lra. }
+  destruct M as [I [M0 [M1 [M2 M3]]]]. exists m. split; [exact I|]. apply bc_hull_hi; assumption.
+Qed.
+
+Lemma ovs_hull cc B g0 g1 g2 g3 t : 0 <= t -> t <= 1 -> 0 <= B * cc ->
+  ovs_ok cc B g0 = true -> ovs_ok cc B g1 = true -> ovs_ok cc B g2 = true -> ovs_ok cc B g3 = true ->
+  let v := bc g0 g1 g2 g3 t in
+  (v <= 0 -> v * v <= B * cc) /\ (cc <= v -> (v - cc) * (v - cc) <= B * cc).
+Proof.
+  intros T0 T1 HB O0 O1 O2 O3 v.
+  assert (OK: forall g, In g [g0; g1; g2; g3] -> ovs_ok cc B g = true).
+  { intros g I. cbn [In] in I. destruct I as [I|[I|[I|[I|[]]]]]; subst g; assumption. }
+  split.
+  - intros Hv. destruct (bc_some_coef_le g0 g1 g2 g3 t T0 T1) as [g [I L]]. fold v in L.
+    pose proof (OK g I) as O. unfold ovs_ok in O. apply andb_true_iff in O. destruct O as [O _].
+    apply orb_true_iff in O. destruct O as [O|O]; apply Qleb_le in O.
+    + assert (Z: v == 0) by lra. rewrite Z. lra.
+    + eapply Qle_trans; [|exact O].
+      setoid_replace (v * v) with ((- v) * (- v)) by ring. setoid_replace (g * g) with ((- g) * (- g)) by ring.
+      apply Qsq_le_mono; lra.
+  - intros Hv. destruct (bc_some_coef_ge g0 g1 g2 g3 t T0 T1) as [g [I L]]. fold v in L.
+    pose proof (OK g I) as O. unfold ovs_ok in O. apply andb_true_iff in O. destruct O as [_ O].
+    apply orb_true_iff in O. destruct O as [O|O]; apply Qleb_le in O.
+    + assert (Z: v - cc == 0) by lra. rewrite Z. lra.
+    + eapply Qle_trans; [|exact O]. apply Qsq_le_mono; lra.
+Qed.
+
+Lemma injZ_succ' k : inject_Z (Z.of_nat k + 1) == inject_Z (Z.of_nat k) + 1.
+Proof. rewrite inject_Z_plus. reflexivity. Qed.
+
+Lemma sub_hull_sound a1 a2 cc B n k : (0 < n)%nat -> (0 < k)%nat -> 0 <= B * cc ->
+  sub_hull_ok a1 a2 cc B n k = true ->
+  forall t, 0 <= t -> t <= inject_Z (Z.of_nat k) / inject_Z (Z.of_nat n) ->
+    let v := bc 0 a1 a2 cc t in
+    (v <= 0 -> v * v <= B * cc) /\ (cc <= v -> (v - cc) * (v - cc) <= B * cc).
+Proof.
+  intros Hn. set (N := inject_Z (Z.of_nat n)).
+  assert (HN: 0 < N). { unfold N. change 0 with (inject_Z 0). rewrite <- Zlt_Qlt. lia. }
+  induction k as [|k IH]; intros Hk HB H t T0 T1; [inversion Hk|].
+  cbn [sub_hull_ok] in H. fold N in H.
+  set (s := inject_Z (Z.of_nat k) / N) in *. set (u := inject_Z (Z.of_nat k + 1) / N) in *.
+  assert (Eu: u == s + 1 / N) by (unfold u, s; rewrite injZ_succ'; field; lra).
+  assert (HiN: 0 < 1 / N) by (apply Qlt_shift_div_l; lra).
+  assert (Hsu: s < u) by lra.
+  assert (T1': t <= u). { unfold u. rewrite Nat2Z.inj_succ in T1. unfold Z.succ in T1. exact T1. }
+  rewrite !andb_true_iff in H. destruct H as [[[[O0 O1] O2] O3] HR].
+  destruct (Qlt_le_dec t s) as [L|L].
+  - assert (Hk': (0 < k)%nat).
+    { destruct k; [|lia]. exfalso. unfold s in L. cbn in L. unfold Qdiv in L.
+      assert (E: inject_Z 0 * / N == 0) by (unfold inject_Z; ring). rewrite E in L. lra. }
+    apply IH; [exact Hk'|exact HB|exact HR|exact T0|]. fold N. fold s. lra.
+  - destruct (sigma_range s u t Hsu L T1') as [S0 S1].
+    pose proof (ovs_hull cc B _ _ _ _ ((t - s) / (u - s)) S0 S1 HB O0 O1 O2 O3) as OH. cbv zeta in OH.
+    rewrite (sub_eval_c 0 a1 a2 cc s u t Hsu) in OH. exact OH.
+Qed.
+
+Lemma collinear_piece_sound q0 q1 q2 q3 B sg : 0 <= B -> 0 <= sg -> sg <= 1 ->
+  collinear_ok q0 q1 q2 q3 B = true ->
+  exists lam, 0 <= lam /\ lam <= 1 /\ dist2 (cubeB q0 q1 q2 q3 sg) (lerp q0 q3 lam) <= B.
+Proof.
+  destruct q0 as [x0 y0], q1 as [x1 y1], q2 as [x2 y2], q3 as [x3 y3]. intros HB S0 S1.
+  unfold collinear_ok, dist2, vsub, nrm2, vdot, vcross, cubeB, lerp, lerp1, px, py. cbn [fst snd].
+  set (cx := x3 - x0). set (cy := y3 - y0). set (d1x := x1 - x0). set (d1y := y1 - y0).
+  set (d2x := x2 - x0). set (d2y := y2 - y0).
+  destruct (Qltb 0 (Qstrip (cx * cx + cy * cy)) && Qeqb (d1x * cy - d1y * cx) 0 && Qeqb (d2x * cy - d2y * cx) 0) eqn:G; [|discriminate].
+  rewrite !andb_true_iff in G. destruct G as [[G0 G1] G2].
+  apply Qltb_lt in G0. apply Qeqb_eq in G1, G2. rewrite Qstrip_correct in G0. intros H.
+  set (cc := cx * cx + cy * cy) in *. set (a1 := d1x * cx + d1y * cy) in *. set (a2 := d2x * cx + d2y * cy) in *.
+  assert (HBc: 0 <= B * Qstrip cc) by (rewrite Qstrip_correct; apply Qmult_le_0_compat; lra).
+  assert (E32: inject_Z (Z.of_nat 32) / inject_Z (Z.of_nat 32) == 1) by (vm_compute; reflexivity).
+  assert (One: sg <= inject_Z (Z.of_nat 32) / inject_Z (Z.of_nat 32)) by (rewrite E32; exact S1).
+  pose proof (sub_hull_sound _ _ _ _ 32 32 ltac:(lia) ltac:(lia) HBc H sg S0 One) as SH. cbv zeta in SH.
+  assert (EV: bc 0 (Qstrip a1) (Qstrip a2) (Qstrip cc) sg == bc 0 a1 a2 cc sg) by (rewrite !Qstrip_correct; reflexivity).
+  rewrite EV, !Qstrip_correct in SH. destruct SH as [SL SHi].
+  set (f1 := sg * (1 - sg) * (1 - sg)). set (f2 := sg * sg * (1 - sg)).
+  set (Px := 3 * d1x * f1 + 3 * d2x * f2 + cx * (sg * sg * sg)).
+  set (Py := 3 * d1y * f1 + 3 * d2y * f2 + cy * (sg * sg * sg)).
+  assert (Epc: Px * cx + Py * cy == bc 0 a1 a2 cc sg) by (unfold Px, Py, bc, a1, a2, cc, f1, f2; ring).
+  assert (Epx: Px * cy - Py * cx == 3 * ((d1x * cy - d1y * cx) * f1) + 3 * ((d2x * cy - d2y * cx) * f2)) by (unfold Px, Py, f1, f2; ring).
+  assert (SD: exists lam, 0 <= lam /\ lam <= 1 /\ (Px - lam * cx) * (Px - lam * cx) + (Py - lam * cy) * (Py - lam * cy) <= 0 + B).
+  { apply seg_dist; fold cc; try assumption; try lra.
+    - rewrite Epx, G1, G2. assert (Z: (3 * (0 * f1) + 3 * (0 * f2)) * (3 * (0 * f1) + 3 * (0 * f2)) == 0) by ring. rewrite Z. lra.
+    - rewrite Epc. exact SL.
+    - rewrite Epc. exact SHi. }
+  destruct SD as [lam [L0 [L1 HD]]]. exists lam. split; [exact L0|split; [exact L1|]].
+  assert (Ex: bc x0 x1 x2 x3 sg - (x0 + cx * lam) == Px - lam * cx) by (unfold bc, Px, d1x, d2x, cx, f1, f2; ring).
+  assert (Ey: bc y0 y1 y2 y3 sg - (y0 + cy * lam) == Py - lam * cy) by (unfold bc, Py, d1y, d2y, cy, f1, f2; ring).
+  rewrite Ex, Ey. lra.
+Qed.
+
+Lemma cube_pb2_sound p0 p1 p2 p3 B s u t : 0 <= B -> s < u -> s <= t -> t <= u ->
+  exists lam, 0 <= lam /\ lam <= 1 /\
+    dist2 (cubeB_f p0 p1 p2 p3 t) (lerp (cubeB_f p0 p1 p2 p3 s) (cubeB_f p0 p1 p2 p3 u) lam) <= cube_pb2 p0 p1 p2 p3 B s u.
+Proof.
+  intros HB Hsu Hst Htu. destruct (sigma_range s u t Hsu Hst Htu) as [S0 S1].
+  unfold cube_pb2, cube_sub_f.
+  set (bx := blc_f (px p0) (px p1) (px p2) (px p3)). set (by_ := blc_f (py p0) (py p1) (py p2) (py p3)).
+  set (q0 := (bx s s s, by_ s s s)). set (q1 := (bx s s u, by_ s s u)).
+  set (q2 := (bx s u u, by_ s u u)). set (q3 := (bx u u u, by_ u u u)).
+  assert (TR: forall lam, dist2 (cubeB_f p0 p1 p2 p3 t) (lerp (cubeB_f p0 p1 p2 p3 s) (cubeB_f p0 p1 p2 p3 u) lam)
+                          == dist2 (cubeB q0 q1 q2 q3 ((t - s) / (u - s))) (lerp q0 q3 lam)).
+  { intros lam. unfold dist2, nrm2, vdot, vsub, cubeB, cubeB_f, lerp, q0, q1, q2, q3, bx, by_, px, py. cbn [fst snd].
+    rewrite !sub_eval_c by exact Hsu. rewrite !blc_f_eq, !blc_diag. reflexivity. }
+  destruct (cube_piece_sound q0 q1 q2 q3 _ S0 S1) as [lam [L0 [L1 HB1]]].
+  destruct (Qleb (cube_piece_bound2 q0 q1 q2 q3) B).
+  - exists lam. split; [exact L0|split; [exact L1|]]. rewrite TR. exact HB1.
+  - destruct (collinear_ok q0 q1 q2 q3 B) eqn:C.
+    + destruct (collinear_piece_sound q0 q1 q2 q3 B _ HB S0 S1 C) as [lam' [M0 [M1 HB2]]].
+      exists lam'. split; [exact M0|split; [exact M1|]]. rewrite TR. exact HB2.
+    + exists lam. split; [exact L0|split; [exact L1|]]. rewrite TR. exact HB1.
+Qed.
+
 Lemma chk_ends_spec l a b : chk_ends l a b = true ->
   fst (hd dflt l) == 0 /\ peq (snd (hd dflt l)) a /\ fst (last l dflt) == 1 /\ peq (snd (last l dflt)) b /\ (2 <= length l)%nat.
 Proof.
@@ -608,7 +760,8 @@ Proof.
   unfold chk_flat_cube. rewrite !andb_true_iff. intros [Hl [HE HP]].
   split; [apply Nat.eqb_eq; exact Hl|].
   apply (flat_cert_ok_ext (cubeB_f p0 p1 p2 p3)); [apply cubeB_f_eq|].
-  exact (flat_cert_sound _ _ _ _ _ _ _ (cube_pb_sound p0 p1 p2 p3) HE HP).
+  assert (HB: 0 <= sqr (K * tol)) by apply Qsq_nonneg.
+  exact (flat_cert_sound _ _ _ _ _ _ _ (fun s u t => cube_pb2_sound p0 p1 p2 p3 (sqr (K * tol)) s u t HB) HE HP).
 Qed.
 
 (** distance to the returned polyline itself: within K tol + 2 slack *)
